@@ -12,8 +12,9 @@ use std::time::{Duration, Instant};
 use surrealkv::verif::store as vs;
 use surrealkv::{Options, Tree, TreeBuilder};
 
-const OPS: &[(&str, usize)] = &[("iter", 3), ("flush", 2), ("rotate", 2), ("compact", 2)];
-const PAIRS: &[(&str, &str)] = &[("iter", "iter"), ("iter", "flush"), ("iter", "rotate"), ("iter", "compact"), ("flush", "rotate"), ("flush", "compact"), ("rotate", "compact"), ("flush", "iter"), ("compact", "iter"), ("rotate", "iter")];
+const OPS: &[(&str, usize)] = &[("iter", 3), ("flush", 2), ("rotate", 2), ("compact", 2), ("commit", 1), ("rotflush", 6)];
+const PAIRS: &[(&str, &str)] = &[("iter", "iter"), ("iter", "flush"), ("iter", "rotate"), ("iter", "compact"), ("flush", "rotate"), ("flush", "compact"), ("rotate", "compact"), ("flush", "iter"), ("compact", "iter"), ("rotate", "iter"),
+    ("commit", "rotflush"), ("rotflush", "commit"), ("commit", "rotate"), ("commit", "commit"), ("commit", "iter"), ("commit", "flush")];
 
 fn interleavings(a: usize, b: usize) -> Vec<String> {
     // all sequences with a zeros and b ones
@@ -53,10 +54,15 @@ pub fn gen(a: &Args) -> i32 {
     // quick: `cases` scenarios sampled; thorough (or cases >= all): every scenario
     let n = (a.cases as usize).min(all.len());
     if !a.thorough && n < all.len() {
-        for i in (1..all.len()).rev() {
-            all.swap(i, r.below(i as u64 + 1) as usize);
+        // every interleaving of a committer with a rotation + flush is always included (a batch must never be added to
+        // a memtable that is being rotated away); the rest is sampled
+        let (keep, mut rest): (Vec<_>, Vec<_>) = all.into_iter().partition(|(x, y, _)| (x == "commit" && y == "rotflush") || (x == "rotflush" && y == "commit"));
+        for i in (1..rest.len()).rev() {
+            rest.swap(i, r.below(i as u64 + 1) as usize);
         }
-        all.truncate(n);
+        rest.truncate(n);
+        all = keep;
+        all.extend(rest);
     }
     for (i, (x, y, s)) in all.iter().enumerate() {
         writeln!(out, "case {i}").unwrap();
@@ -195,6 +201,16 @@ pub fn exec(a: &Args) -> i32 {
                             "flush" => vs::flush_oldest(&t).map(|_| ()),
                             "rotate" => vs::rotate(&t),
                             "compact" => vs::compact_round(&t),
+                            // a transaction of four keys: its apply adds them to the active memtable under the read lock
+                            "commit" => (|| {
+                                let mut tx = t.begin().map_err(|e| e.to_string())?;
+                                for j in 0..4 {
+                                    tx.set(format!("c{i}-{j}").as_bytes(), b"v").map_err(|e| e.to_string())?;
+                                }
+                                rt.block_on(tx.commit()).map_err(|e| e.to_string())
+                            })(),
+                            // what a rotating committer and the background flush task do one after the other
+                            "rotflush" => vs::rotate(&t).and_then(|_| vs::flush_oldest(&t)).and_then(|_| vs::flush_oldest(&t)).map(|_| ()),
                             _ => Err("bad-op".into()),
                         };
                         let mut g = sh.m.lock().unwrap();
@@ -249,18 +265,35 @@ pub fn exec(a: &Args) -> i32 {
                             errs.push(e.replace(' ', "_"));
                         }
                     }
+                    // the keys of a `commit` operation must all be readable now, and still after everything is flushed
+                    let mut lost = vec![];
+                    for round in 0..2 {
+                        for (i, op) in [w[1], w[2]].iter().enumerate() {
+                            if *op != "commit" {
+                                continue;
+                            }
+                            let tx = t.begin().unwrap();
+                            for j in 0..4 {
+                                if !matches!(tx.get(format!("c{i}-{j}").as_bytes()), Ok(Some(_))) {
+                                    lost.push(format!("c{i}-{j}@{round}"));
+                                }
+                            }
+                        }
+                        let _ = vs::rotate(&t).and_then(|_| vs::flush_immutables(&t));
+                    }
+                    let data = if lost.is_empty() { "ok".to_string() } else { format!("LOST:{}", lost.join("+")) };
                     let _ = rt.block_on(t.close());
                     if errs.is_empty() {
-                        format!("trA={tra} trB={trb} end=ok")
+                        format!("trA={tra} trB={trb} end=ok data={data}")
                     } else {
-                        format!("trA={tra} trB={trb} end=err:{}", errs.join("|"))
+                        format!("trA={tra} trB={trb} end=err:{} data={data}", errs.join("|"))
                     }
                 } else {
                     // the two threads and the store are stuck for good: leave them behind
                     std::mem::forget(handles);
                     std::mem::forget(t);
                     std::mem::forget(dir);
-                    format!("trA={tra} trB={trb} end=DEADLOCK")
+                    format!("trA={tra} trB={trb} end=DEADLOCK data=ok")
                 }
             }
             _ => "bad-op".into(),
